@@ -204,11 +204,13 @@ class Sym:
 
     @property
     def real(self):
-        return self
+        # explicit .real / .imag of a value that may be complex is NOT simplified (A2 treats values as elements of a
+        # commutative Q-algebra): constants are real, everything else becomes an uninterpreted Re / Im atom
+        return self if self.is_const() else app("Re", self)
 
     @property
     def imag(self):
-        return Sym(_mk("c", Q(0)))
+        return Sym(_mk("c", Q(0))) if self.is_const() else app("Im", self)
 
     # -- comparisons ------------------------------------------------------------------------------
     def __lt__(self, o):
@@ -674,6 +676,9 @@ def subst(s, mapping):
 
 # derivative rules of the transcendental atoms (trusted calculus rules, listed in evidence)
 DERIV_RULES = {
+    "atanh": lambda a: div(ONE, add(ONE, neg(mul(a[0], a[0])))),
+    "sinh": lambda a: app("cosh", a[0]),
+    "cosh": lambda a: app("sinh", a[0]),
     "ln": lambda a: div(ONE, a[0]),
     "exp": lambda a: app("exp", a[0]),
     "atan": lambda a: div(ONE, add(ONE, mul(a[0], a[0]))),
@@ -721,10 +726,12 @@ def diff(s, x):
                 b, e = a
                 r = mul(Sym(n), add(mul(go(t[2][1]), app("ln", b)), div(mul(e, go(t[2][0])), b)))
             else:
-                if all(go(i).n == ZERO.n for i in t[2]):
-                    r = ZERO
-                else:
-                    raise Unsupported(f"derivative of uninterpreted function {f}")
+                # uninterpreted function: chain rule with opaque partial derivatives D<i>_f
+                r = ZERO
+                for i_, an in enumerate(t[2]):
+                    da = go(an)
+                    if da.n != ZERO.n:
+                        r = add(r, mul(app(f"D{i_}_{f}", *a), da))
         elif op == "ite":
             r = ite(Sym(t[1]), go(t[2]), go(t[3]))
         else:
@@ -837,7 +844,7 @@ def evalmp(s, env, digits=60):
     fn = {
         "ln": mp.log, "exp": mp.exp, "atan": mp.atan, "sqrt": mp.sqrt, "abs": abs, "sin": mp.sin, "cos": mp.cos,
         "tan": mp.tan, "tanh": mp.tanh, "root": lambda x, q: mp.power(x, mp.mpf(1) / q), "pow": lambda x, y: mp.power(x, y),
-        "Gamma": mp.gamma, "digamma": mp.digamma,
+        "Gamma": mp.gamma, "digamma": mp.digamma, "atanh": mp.atanh, "sinh": mp.sinh, "cosh": mp.cosh,
     }
     memo = {}
 
